@@ -245,6 +245,12 @@ private:
                 sink.push_back(quote_escape_char); 
                 sink.push_back(quote_char);
             }
+            else if (c == quote_escape_char)
+            {
+                // an escape character that is not the quote character escapes itself
+                sink.push_back(quote_escape_char); 
+                sink.push_back(quote_escape_char);
+            }
             else
             {
                 sink.push_back(c);
